@@ -5,7 +5,7 @@
    of the same geometric operands give the same result (explicit corollaries at the end).
    Statements only; proofs in proofs/Spec_*.v over the definitions generated from /repo on this run. *)
 From Coq Require Import Reals.
-From VP Require Import Lib RLib Spec Compute Tables Spec_planar Spec_spatial1 Spec_spatial2 Spec_lorentz Spec_lorentz2 Spec_lorentz3 Spec_lorentz4.
+From VP Require Import Lib RLib Spec Compute Tables Spec_planar Spec_spatial1 Spec_spatial2 Spec_lorentz Spec_lorentz2 Spec_lorentz3 Spec_lorentz4 Spec_lorentz5.
 From VP Require ObjModel ObjNames NbModel NbApi NbChecks.
 Import ObjNames List.ListNotations.
 Open Scope R_scope.
@@ -131,8 +131,8 @@ Theorem C01_lorentz_dot : forall s1 l1 t1 s2 l2 t2 a1 b1 c1 d1 a2 b2 c2 d2,
           - (sx s1 a1 b1 * sx s2 a2 b2 + sy s1 a1 b1 * sy s2 a2 b2 + sz s1 l1 a1 b1 c1 * sz s2 l2 a2 b2 c2)).
 Proof. exact dot_spec4. Qed.
 
-(* add/subtract for the 108 pairings in which at least one operand stores t (tau+tau: see DESIGN, search only) *)
-Theorem C01_lorentz_add_subtract_partial : forall s1 l1 t1 s2 l2 t2 a1 b1 c1 d1 a2 b2 c2 d2,
+(* add/subtract with at least one t-stored operand (108 pairings); tau+tau is the next theorem *)
+Theorem C01_lorentz_add_subtract : forall s1 l1 t1 s2 l2 t2 a1 b1 c1 d1 a2 b2 c2 d2,
   (t1 = TT \/ t2 = TT) -> rep4 s1 l1 t1 a1 b1 c1 d1 -> rep4 s2 l2 t2 a2 b2 c2 d2 ->
   (res_regular (T_spatial_add s1 l1 s2 l2 a1 b1 c1 a2 b2 c2) ->
    den4 (T_lorentz_add s1 l1 t1 s2 l2 t2 a1 b1 c1 d1 a2 b2 c2 d2)
@@ -148,15 +148,26 @@ Proof.
               (subtract_spec4 s1 l1 t1 s2 l2 t2 a1 b1 c1 d1 a2 b2 c2 d2 Ht H1 H2)).
 Qed.
 
-(* add with BOTH operands tau-stored: the proper time of the sum is recomputed from t1 + t2 and |p1 + p2|^2; holds for the 31 of the
-   36 spatial pairings that return the sum in Cartesian coordinates (all but the five same-system polar ones: search only) *)
-Theorem C01_lorentz_add_tau_tau_partial : forall s1 l1 s2 l2 a1 b1 c1 d1 a2 b2 c2 d2,
-  (s1, l1) <> (s2, l2) \/ (s1 = XY /\ l1 = LZ) ->
+(* add / subtract with BOTH operands tau-stored, all 36 spatial pairings: the proper time of the result is recomputed from
+   t1 +- t2 and |p1 +- p2|^2 in the result's coordinate system (Cartesian for 31 pairings, the operands' own polar system for
+   the five same-system polar ones).  The sum of two forward time-like vectors is one (causal_sum: Cauchy-Schwarz), so add needs
+   no further hypothesis; the difference need not be, and tau storage cannot represent a backward or space-like vector, so subtract
+   is stated inside the representable domain. *)
+Theorem C01_lorentz_add_subtract_tau_tau : forall s1 l1 s2 l2 a1 b1 c1 d1 a2 b2 c2 d2,
   rep4 s1 l1 TTau a1 b1 c1 d1 -> rep4 s2 l2 TTau a2 b2 c2 d2 ->
-  den4 (T_lorentz_add s1 l1 TTau s2 l2 TTau a1 b1 c1 d1 a2 b2 c2 d2)
-  = Some (sx s1 a1 b1 + sx s2 a2 b2, sy s1 a1 b1 + sy s2 a2 b2, sz s1 l1 a1 b1 c1 + sz s2 l2 a2 b2 c2,
-          st s1 l1 TTau a1 b1 c1 d1 + st s2 l2 TTau a2 b2 c2 d2).
-Proof. exact add_spec4_tau_tau. Qed.
+  (res_regular (T_spatial_add s1 l1 s2 l2 a1 b1 c1 a2 b2 c2) ->
+   den4 (T_lorentz_add s1 l1 TTau s2 l2 TTau a1 b1 c1 d1 a2 b2 c2 d2)
+   = Some (sx s1 a1 b1 + sx s2 a2 b2, sy s1 a1 b1 + sy s2 a2 b2, sz s1 l1 a1 b1 c1 + sz s2 l2 a2 b2 c2,
+           st s1 l1 TTau a1 b1 c1 d1 + st s2 l2 TTau a2 b2 c2 d2)) /\
+  (let x := sx s1 a1 b1 - sx s2 a2 b2 in let y := sy s1 a1 b1 - sy s2 a2 b2 in let z := sz s1 l1 a1 b1 c1 - sz s2 l2 a2 b2 c2 in
+   let u := st s1 l1 TTau a1 b1 c1 d1 - st s2 l2 TTau a2 b2 c2 d2 in
+   res_regular (T_spatial_subtract s1 l1 s2 l2 a1 b1 c1 a2 b2 c2) -> 0 <= u -> x * x + y * y + z * z <= u * u ->
+   den4 (T_lorentz_subtract s1 l1 TTau s2 l2 TTau a1 b1 c1 d1 a2 b2 c2 d2) = Some (x, y, z, u)).
+Proof.
+  intros s1 l1 s2 l2 a1 b1 c1 d1 a2 b2 c2 d2 H1 H2.
+  exact (conj (add_spec4_tau_tau_all s1 l1 s2 l2 a1 b1 c1 d1 a2 b2 c2 d2 H1 H2)
+              (subtract_spec4_tau_tau_all s1 l1 s2 l2 a1 b1 c1 d1 a2 b2 c2 d2 H1 H2)).
+Qed.
 
 (* kinematic quantities of a representable 4-vector, all 12 signatures: functions of the Cartesian denotation only *)
 Theorem C01_lorentz_kinematics : forall s l t a b c d, rep4 s l t a b c d ->
@@ -197,7 +208,7 @@ Theorem C01_unit_vectors : forall s l a b c, rep3 s l a b c -> 0 < smag2 s l a b
 Proof. intros s l a b c H Hm. split; [exact (unit_spec3 s l a b c H Hm) | intros t d; exact (unit_spec4 s l t a b c d)]. Qed.
 
 (* Et2 = Et^2; deltaRapidityPhi(2) are composed of deltaphi and the rapidities (both storage independent, above);
-   transform4D reduces to the Cartesian variant *)
+   transform4D reduces to the Cartesian variant in all 12 signatures *)
 Theorem C01_lorentz_composites : forall s1 l1 t1 s2 l2 t2 a1 b1 c1 d1 a2 b2 c2 d2,
   (rep4 s1 l1 t1 a1 b1 c1 d1 -> pos_az s1 a1 b1 ->
      numr (T_lorentz_Et2 s1 l1 t1 a1 b1 c1 d1)
@@ -207,15 +218,16 @@ Theorem C01_lorentz_composites : forall s1 l1 t1 s2 l2 t2 a1 b1 c1 d1 a2 b2 c2 d
       | Some p, Some r1, Some r2 => Some (p * p + (r1 - r2) * (r1 - r2)) | _, _, _ => None end /\
   numr (T_lorentz_deltaRapidityPhi s1 l1 t1 s2 l2 t2 a1 b1 c1 d1 a2 b2 c2 d2)
     = lift1 sqrt (numr (T_lorentz_deltaRapidityPhi2 s1 l1 t1 s2 l2 t2 a1 b1 c1 d1 a2 b2 c2 d2)) /\
-  (forall xx xy xz xt yx yy yz yt zx zy zz zt tx ty tz tt,
-     den4 (T_lorentz_transform4D s1 l1 TT xx xy xz xt yx yy yz yt zx zy zz zt tx ty tz tt a1 b1 c1 d1)
-     = den4 (T_lorentz_transform4D XY LZ TT xx xy xz xt yx yy yz yt zx zy zz zt tx ty tz tt (sx s1 a1 b1) (sy s1 a1 b1) (sz s1 l1 a1 b1 c1) d1)).
+  (rep4 s1 l1 t1 a1 b1 c1 d1 -> forall xx xy xz xt yx yy yz yt zx zy zz zt tx ty tz tt,
+     den4 (T_lorentz_transform4D s1 l1 t1 xx xy xz xt yx yy yz yt zx zy zz zt tx ty tz tt a1 b1 c1 d1)
+     = den4 (T_lorentz_transform4D XY LZ TT xx xy xz xt yx yy yz yt zx zy zz zt tx ty tz tt
+               (sx s1 a1 b1) (sy s1 a1 b1) (sz s1 l1 a1 b1 c1) (st s1 l1 t1 a1 b1 c1 d1))).
 Proof.
   intros. repeat split.
   - apply Et2_spec.
   - apply deltaRapidityPhi2_def.
   - apply deltaRapidityPhi_def.
-  - intros. apply transform4D_square.
+  - intros H *. apply transform4D_square_all. exact H.
 Qed.
 
 (* ---------------- explicit storage-independence corollary (the shape every theorem above yields) ---------------- *)
@@ -242,4 +254,13 @@ Example C01_nonvacuous : rep4 RhoPhi LEta TTau 1 2 (1/2) 3 /\ rep3 XY LTheta 1 1
 Proof.
   unfold rep4, rep3, canon_az, canon_lg, canon_tm, pos_az. pose proof PI_RGT_0. pose proof (PI_ineq 0).
   assert (1 < PI) by (pose proof PI2_3_2; Lra.lra). repeat split; try Lra.lra; intros; Lra.lra.
+Qed.
+
+(* the domain hypotheses of tau - tau are satisfiable: (0,0,0; tau=3) - (0,0,0; tau=1) is forward and causal *)
+Example C01_subtract_domain_nonvacuous :
+  let u := st XY LZ TTau 0 0 0 3 - st XY LZ TTau 0 0 0 1 in 0 <= u /\ (0 - 0) * (0 - 0) + (0 - 0) * (0 - 0) + (0 - 0) * (0 - 0) <= u * u.
+Proof.
+  cbv zeta. unfold st, smag2, sx, sy, sz.
+  replace (3 * 3 + (0 * 0 + 0 * 0 + 0 * 0)) with (3 * 3) by ring. replace (1 * 1 + (0 * 0 + 0 * 0 + 0 * 0)) with (1 * 1) by ring.
+  rewrite !sqrt_square by Lra.lra. Lra.lra.
 Qed.
